@@ -245,7 +245,7 @@ def open_model_check(pid, quick):
     """VFOpen_MC: the link discovery of a seekable open over every chain of catalogue shapes"""
     out = dict(states=0, transitions=0, configs={}); viol = []
     for c in (['VFOpen_MC.cfg', 'VFOpen_MC_hdronly.cfg'] if quick else ['VFOpen_MC.cfg', 'VFOpen_MC_hdronly.cfg', 'VFOpen_MC_3.cfg']):
-        r = vlib.run_tlc('VFOpen_MC.tla', c, workers=4 if quick else 14, timeout=300 if quick else 3000)
+        r = vlib.run_tlc_cached('VFOpen_MC.tla', c, workers=4 if quick else 14, timeout=300 if quick else 3000)
         out['configs'][c] = dict(ok=bool(r['ok']), states=r['distinct'], wall_s=round(r['wall'], 1)); out['states'] += r['distinct']; out['transitions'] += r['generated']
         if not r['ok']:
             os.makedirs(vlib.REPLAY, exist_ok=True); p = os.path.join(vlib.REPLAY, f'{pid}-design-{c}.txt'); o = r['out']; i = o.find('Error:'); open(p, 'w').write(o[max(0, i):i + 4000])
@@ -258,7 +258,7 @@ def seek_model_check(pid, quick):
     out = dict(states=0, transitions=0, configs={}, pinned_rules_refuted={}); viol = []
     cfgs = ['VFSeek_MC.cfg'] if quick else ['VFSeek_MC.cfg', 'VFSeek_MC_5.cfg', 'VFSeek_MC_6.cfg']
     for c in cfgs:
-        r = vlib.run_tlc('VFSeek_MC.tla', c, workers=4 if quick else 14, timeout=300 if quick else 3000)
+        r = vlib.run_tlc_cached('VFSeek_MC.tla', c, workers=4 if quick else 14, timeout=300 if quick else 3000)
         out['configs'][c] = dict(ok=bool(r['ok']), states=r['distinct'], wall_s=round(r['wall'], 1)); out['states'] += r['distinct']; out['transitions'] += r['generated']
         if not r['ok']:
             os.makedirs(vlib.REPLAY, exist_ok=True); p = os.path.join(vlib.REPLAY, f'{pid}-design-{c}.txt'); o = r['out']; i = o.find('Error:'); open(p, 'w').write(o[max(0, i):i + 4000])
